@@ -1,2 +1,148 @@
-def run_for(prop, program):
-    return None
+"""Self-test of the checker: in-memory source variants of /repo.
+
+Each variant is a textual edit located by a unique source fragment of the
+*current* tree (never by line number), applied to an in-memory copy of the
+sources - nothing is written to disk and the package is never executed.
+
+kind 'seeded': a property-breaking edit; the listed rules must fire (exit 1).
+kind 'twin'  : a behaviour-preserving refactor; no rule of the property may fire.
+
+If the fragment is not found exactly once (the tree was edited there), the
+variant is 'inapplicable' - reported, never an error.
+
+Run all:  /venv/bin/python -m s3tlint.variants [--prop C17] [-j 16] [-v]
+"""
+import argparse
+import glob
+import importlib
+import json
+import os
+import sys
+import time
+
+from . import engine
+from .ir import AnalysisError, Program, read_sources
+
+VARIANTS = []  # dicts: id, props, file, old, new, expect (rule ids), kind, why
+
+
+def V(id, props, file, old, new, expect=(), kind='seeded', why='', count=1):
+    VARIANTS.append({'id': id, 'props': list(props), 'file': 's3transfer/' + file, 'old': old, 'new': new,
+                     'expect': list(expect), 'kind': kind, 'why': why, 'count': count})
+
+
+def load_variant_files():
+    if VARIANTS:
+        return
+    here = os.path.join(os.path.dirname(__file__), 'variantdefs')
+    for fn in sorted(glob.glob(os.path.join(here, 'v_*.py'))):
+        importlib.import_module(f's3tlint.variantdefs.{os.path.basename(fn)[:-3]}')
+
+
+def apply_variant(sources, v):
+    src = sources.get(v['file'])
+    if src is None or src.count(v['old']) != v['count']:
+        return None
+    out = dict(sources)
+    out[v['file']] = src.replace(v['old'], v['new'])
+    return out
+
+
+def run_one(v, sources, prop=None):
+    """-> dict(status=ok|miss|false_alarm|inapplicable|broken, fired=[...])"""
+    from . import rules
+    rules.load_all()
+    srcs = apply_variant(sources, v)
+    if srcs is None:
+        return {'id': v['id'], 'status': 'inapplicable', 'fired': []}
+    try:
+        compile(srcs[v['file']], v['file'], 'exec')
+        prog = Program(srcs)
+    except (SyntaxError, AnalysisError) as e:
+        return {'id': v['id'], 'status': 'broken', 'fired': [], 'detail': f'variant does not compile: {e}'}
+    fired = []
+    errors = []
+    if prop and v['kind'] == 'seeded' and v['expect']:
+        mine = {r['id'] for r in engine.RULES if prop in r['props']}
+        if not (set(v['expect']) & mine):
+            return {'id': v['id'], 'status': 'skipped', 'fired': [], 'kind': v['kind']}
+    for p in ([prop] if prop else v['props']):
+        code, ctx, viol = engine.run_property(p, 'quick', program=prog, write=False, quiet=True)
+        fired += [f'{p}:{o.rule}' for o in viol]
+        if ctx is not None:
+            errors += [f'{p}:{r}:{m}' for r, m in ctx.errors]
+    fired_rules = {f.split(':')[1] for f in fired}
+    if v['kind'] == 'seeded':
+        want = set(v['expect'])
+        if want and not (want & fired_rules):
+            status = 'miss'
+        elif not want and not fired:
+            status = 'miss'
+        else:
+            status = 'ok'
+    else:
+        status = 'false_alarm' if fired else ('twin_error' if errors else 'ok')
+    return {'id': v['id'], 'status': status, 'fired': sorted(set(fired)), 'errors': errors[:3], 'kind': v['kind']}
+
+
+def run_for(prop, program, jobs=None):
+    """Thorough-tier hook: run the variants of one property against the current tree."""
+    load_variant_files()
+    sources = {m.path: m.source for m in program.modules.values()}
+    vs = [v for v in VARIANTS if prop in v['props']]
+    if not vs:
+        return {'variants': 0, 'misses': []}
+    results = _run_many(vs, sources, prop, jobs)
+    misses = [f"{r['id']}: {r['status']} fired={r['fired']} {r.get('detail', '')}" for r in results
+              if r['status'] in ('miss', 'false_alarm', 'broken', 'twin_error')]
+    return {'variants': len(vs), 'ok': sum(r['status'] == 'ok' for r in results),
+            'inapplicable': [r['id'] for r in results if r['status'] == 'inapplicable'],
+            'seeded_caught': sum(r['status'] == 'ok' and r.get('kind') == 'seeded' for r in results),
+            'twins_silent': sum(r['status'] == 'ok' and r.get('kind') == 'twin' for r in results),
+            'misses': misses}
+
+
+def _worker(args):
+    v, sources, prop = args
+    try:
+        return run_one(v, sources, prop)
+    except Exception as e:  # pragma: no cover
+        return {'id': v['id'], 'status': 'broken', 'fired': [], 'detail': f'{type(e).__name__}: {e}'}
+
+
+def _run_many(vs, sources, prop=None, jobs=None):
+    jobs = jobs or min(16, os.cpu_count() or 1)
+    if jobs <= 1 or len(vs) < 4:
+        return [_worker((v, sources, prop)) for v in vs]
+    import multiprocessing as mp
+    with mp.get_context('fork').Pool(jobs) as pool:
+        return pool.map(_worker, [(v, sources, prop) for v in vs], chunksize=1)
+
+
+def main(argv=None):
+    ap = argparse.ArgumentParser()
+    ap.add_argument('--prop')
+    ap.add_argument('--id')
+    ap.add_argument('-j', type=int, default=16)
+    ap.add_argument('-v', action='store_true')
+    ap.add_argument('--repo', default='/repo')
+    a = ap.parse_args(argv)
+    load_variant_files()
+    sources = read_sources(a.repo)
+    vs = [v for v in VARIANTS if (not a.prop or a.prop in v['props']) and (not a.id or v['id'] == a.id)]
+    t = time.time()
+    res = _run_many(vs, sources, a.prop, a.j)
+    bad = 0
+    for r in res:
+        if r['status'] != 'ok' or a.v:
+            print(f"{r['status']:13s} {r['id']:40s} fired={r['fired']} {r.get('detail', '')} {r.get('errors') or ''}")
+        if r['status'] in ('miss', 'false_alarm', 'broken', 'twin_error'):
+            bad += 1
+    print(f'{len(res)} variants, {sum(r["status"] == "ok" for r in res)} ok, {bad} bad, '
+          f'{sum(r["status"] == "inapplicable" for r in res)} inapplicable, {time.time() - t:.1f}s')
+    return 1 if bad else 0
+
+
+if __name__ == '__main__':
+    from s3tlint import variants as _v
+    sys.exit(_v.main())
